@@ -120,6 +120,9 @@ structure St where
   cDelivered : List Nat := []     -- messages client RecvMsg returned
   sendsDone : Nat := 0            -- client SendMsg calls that returned nil
   sSendsDone : Nat := 0           -- server SendMsg calls that returned nil
+  hRet : Option (Option HErr) := none   -- what the handler returned (set by `sReturn`)
+  hdrAll : List Nat := []         -- header ids the handler's SetHeader/SendHeader accepted
+  tlrAll : List Nat := []         -- trailer ids the handler's SetTrailer accepted
 deriving DecidableEq, Repr
 
 inductive Act where
@@ -266,16 +269,16 @@ def step (s : St) : Act → Option (St × List Ev)
   | .sSetHeader md =>
     if s.sWrite.isSome || s.sReturned then none
     else if s.sState != 0 then some (s, [.ret .h .plainErr])
-    else some ({ s with sHeaders := s.sHeaders ++ [md] }, [.ret .h .ok])
+    else some ({ s with sHeaders := s.sHeaders ++ [md], hdrAll := s.hdrAll ++ [md] }, [.ret .h .ok])
   | .sSendHeader md =>
     if s.sWrite.isSome || s.sReturned then none
     else if s.sState != 0 then some (s, [.ret .h .plainErr])
-    else some ({ s with sHeaders := s.sHeaders ++ [md],
+    else some ({ s with sHeaders := s.sHeaders ++ [md], hdrAll := s.hdrAll ++ [md],
                         sWrite := some ⟨[.headers (s.sHeaders ++ [md])], .sendHeader⟩ }, [])
   | .sSetTrailer md =>
     if s.sWrite.isSome || s.sReturned then none
     else if s.sState == 2 then some (s, [.ret .h .ok])
-    else some ({ s with sTrailers := s.sTrailers ++ [md] }, [.ret .h .ok])
+    else some ({ s with sTrailers := s.sTrailers ++ [md], tlrAll := s.tlrAll ++ [md] }, [.ret .h .ok])
   | .sSendBegin m =>
     if s.sWrite.isSome || s.sReturned then none
     else if svrCtxDone s || s.sState == 2 then some (s, [.ret .h .eof])
@@ -331,7 +334,7 @@ def step (s : St) : Act → Option (St × List Ev)
       let hdr := if s.sState == 0 && !s.sHeaders.isEmpty then [Frame.headers s.sHeaders] else []
       let tlr := if s.sTrailers.isEmpty then [] else [Frame.trailers s.sTrailers]
       let ef := match e with | some e => [Frame.err e] | none => []
-      some ({ s with sReturned := true, svrDone := true, sTrailers := [],
+      some ({ s with sReturned := true, svrDone := true, sTrailers := [], hRet := some e,
                      sWrite := some ⟨hdr ++ tlr ++ ef, .finish⟩ }, [])
   | .sFinishEnd =>
     match s.sWrite with
